@@ -1,6 +1,9 @@
 #!/bin/sh
-# Builds the native harness once (offline) so that quick checks only pay an incremental rebuild.
+# Builds the harness once (offline) so that quick checks only pay an incremental rebuild:
+# the native build (all properties) and the ASan build (quick legs of C11 / C12).
 set -e
 cd "$(dirname "$0")/harness"
 export CARGO_NET_OFFLINE=true
 RUSTFLAGS="--cfg arroy_verif" CARGO_TARGET_DIR="$(pwd)/../.build/native" cargo build --release --offline
+RUSTFLAGS="--cfg arroy_verif -Zsanitizer=address -Cforce-frame-pointers=yes" CARGO_TARGET_DIR="$(pwd)/../.build/asan" \
+  cargo +nightly build --release --offline --target x86_64-unknown-linux-gnu
